@@ -35,6 +35,8 @@ def date_forms(rnd, q):
 
 def time_parts(rnd):
     fr = [[], [53], [48, 48, 49], [49, 50, 51, 52, 53, 54], [57] * 6, [49, 50, 51, 52, 53, 54, 55], [57] * 9, [48] * 8 + [49],
+          [49, 50], [55, 48, 57, 49], [49, 50, 51, 52, 53], [48, 48, 48, 48, 55], [49, 50, 51, 52, 53, 54, 55, 56],     # every length 1..9
+          [48 + rnd.randrange(10) for _ in range(5)], [48 + rnd.randrange(10) for _ in range(4)], [48 + rnd.randrange(10) for _ in range(2)],
           [48 + rnd.randrange(10) for _ in range(rnd.randrange(1, 10))]]
     out = [dict(tk="h", h=0), dict(tk="h", h=23), dict(tk="hm", h=0, mi=0), dict(tk="hm", h=23, mi=59), dict(tk="hm", h=24, mi=0),
            dict(tk="hms", h=24, mi=0, s=0), dict(tk="hms", h=12, mi=60, s=0), dict(tk="hms", h=12, mi=0, s=60)]
